@@ -1,9 +1,16 @@
 #!/usr/bin/env python3
-"""C01 — end-to-end byte stream exact and ordered across proxy churn (DESIGN.md §3 C01, tier 1)."""
+"""C01 — end-to-end byte stream exact and ordered across proxy churn (DESIGN.md §3 C01).
+
+Tier 1: the real dialContext closure, WebRTCPeer, encapsulation, RedialPacketConn and the real server
+turbotunnelMode under the scheduler (virtual time, ARQ stand-in for KCP).
+Tier 2: the real client session (kcp-go, smux) <-> relay <-> real server listener over loopback
+WebSockets, faults at chosen relay messages (sequential enumeration, real time)."""
 import os
 import sys
 
 sys.path.insert(0, os.path.join(os.path.dirname(os.path.abspath(__file__)), "..", "lib"))
+import client_t2_common  # noqa: E402
+import enumlib  # noqa: E402
 import sched  # noqa: E402
 import vlib  # noqa: E402
 import server_common  # noqa: E402
@@ -31,12 +38,26 @@ def main():
         total = 900
     summary, tot, samples, exh = sched.run_passes(rep, binary, passes, total)
     sched.sched_coverage(rep, summary, tot, samples, exh)
+    # tier 2: real stacks on loopback
+    try:
+        eb = client_t2_common.build()
+        res = enumlib.run(eb, "TestVerifEnumC01T2", tier, 200 if tier == "quick" else 900)
+        for f in res["findings"]:
+            rep.finding(f["sig"], f["msg"], {"input": f["input"], "kind": "real-stack scenario (client newSession with kcp-go+smux, relay, server listener over loopback WebSockets)", "test": "TestVerifEnumC01T2"})
+        rep.coverage["real_stack_tier2"] = {"scenarios": res["evaluations"], "sections": res["sections"], "completed": res["exhaustive"], "stop_reason": res.get("stop_reason"),
+                                            "note": "real client session and real server listener; WebRTCPeer's data channel replaced by an in-memory transport feeding a relay; faults at chosen relay messages"}
+        rep.coverage["traces_validated_against_impl"] += res["evaluations"]
+        if not res["exhaustive"]:
+            rep.coverage["exhaustive"] = False
+    except vlib.EngineError as e:
+        rep.engine_errors.append(str(e))
     rep.assumptions += [
         "virtual time: computation is instantaneous relative to timers",
         "tier 1: KCP+smux are replaced by a stop-and-wait ARQ driver (retransmit every 1 s of virtual time); the proxy is a transparent relay preserving message boundaries client->server; the pion data channel, real proxies under SIGKILL/SIGSTOP and KCP/smux internals are not covered",
         "frozen carriers are abandoned by the client's real checkForStaleness (started for every peer as connect() does; lastReceive is refreshed on message arrival as pion's OnMessage callback does)",
         "payloads: 1 and 1400 bytes up, 58 and 59 bytes down (63/64 bytes on the wire: both sides of the 1/2-byte length-prefix boundary)",
         "SendQueue sections of ClientMap.lock declared commuting (argument in harness/serverlib_sched/c05_test.go)",
+        "tier 2 runs in real time on loopback: its safety oracles compare bytes only (what each side read is a prefix of / equal to what the other wrote, one bridge connection per stream); a scenario that does not complete within 60 s is re-run three times before it is reported; loopback trouble marks the run incomplete; the pion data channel is replaced by an in-memory transport (three fields of WebRTCPeer retyped at build time)",
     ]
     rep.finish()
 
